@@ -123,6 +123,7 @@ impl LoggerHandle {
                 spec_stack: Vec::default(),
                 primary_writer,
                 other_writers,
+                clone_counter: Arc::new(()),
             },
             #[cfg(feature = "specfile")]
             oam_specfile_watcher: None,
@@ -503,6 +504,8 @@ pub(crate) struct WritersHandle {
     spec_stack: Vec<LogSpecification>,
     primary_writer: Arc<PrimaryWriter>,
     other_writers: Arc<HashMap<String, Box<dyn LogWriter>>>,
+    // shared by all clones of a handle, to find out which one is the last
+    clone_counter: Arc<()>,
 }
 impl WritersHandle {
     fn set_new_spec(&self, new_spec: LogSpecification) -> Result<(), FlexiLoggerError> {
@@ -530,9 +533,12 @@ impl WritersHandle {
 }
 impl Drop for WritersHandle {
     fn drop(&mut self) {
-        self.primary_writer.shutdown();
-        for writer in self.other_writers.values() {
-            writer.shutdown();
+        // the clones of a handle share the writers: only the last one shuts them down
+        if Arc::strong_count(&self.clone_counter) == 1 {
+            self.primary_writer.shutdown();
+            for writer in self.other_writers.values() {
+                writer.shutdown();
+            }
         }
     }
 }
